@@ -392,10 +392,10 @@ impl Fl for SyncFl {
         }
     }
     fn s_tag(s: &Self::S) -> u32 {
-        s.read().tr.tag
+        s.read().tr.tag()
     }
     fn u_tag(u: &Self::U) -> u32 {
-        Observable::get(u).tr.tag
+        Observable::get(u).tr.tag()
     }
     fn s_downgrade(s: &Self::S) -> Self::W {
         s.downgrade()
@@ -573,10 +573,10 @@ impl Fl for AsyncFl {
         }
     }
     fn s_tag(s: &Self::S) -> u32 {
-        bo(s.read()).tr.tag
+        bo(s.read()).tr.tag()
     }
     fn u_tag(u: &Self::U) -> u32 {
-        Observable::get_async(u).tr.tag
+        Observable::get_async(u).tr.tag()
     }
     fn s_downgrade(s: &Self::S) -> Self::W {
         s.downgrade()
